@@ -35,6 +35,7 @@ static long op_no = 0;
 typedef struct { uint8_t* p; size_t n; } BLOB;
 
 static YR_COMPILER* compilers[MAXSLOT];
+static uint8_t* qtables[MAXSLOT];   /* atom quality table handed to the compiler (it keeps the pointer) */
 static YR_RULES* rulesets[MAXSLOT];
 static YR_SCANNER* scanners[MAXSLOT];
 static BLOB datas[MAXDATA];
@@ -669,7 +670,9 @@ int main(int argc, char** argv)
       /* qtable <c> <hex of entries (4 atom bytes + 1 quality each, sorted)> <threshold> */
       NEED(3);
       int c = slot(tok[1], MAXSLOT);
-      BLOB t = unhex(tok[2]); /* intentionally kept alive: compiler keeps the pointer */
+      BLOB t = unhex(tok[2]);
+      free(qtables[c]);
+      qtables[c] = t.p;
       yr_compiler_set_atom_quality_table(compilers[c], t.p, (int) (t.n / 5), (unsigned char) atoi(tok[3]));
       fprintf(out, "{\"e\":\"QTable\",\"cid\":%d,\"entries\":%d}\n", c, (int) (t.n / 5));
     }
@@ -732,6 +735,8 @@ int main(int argc, char** argv)
       int c = slot(tok[1], MAXSLOT);
       if (compilers[c]) yr_compiler_destroy(compilers[c]);
       compilers[c] = NULL;
+      free(qtables[c]);
+      qtables[c] = NULL;
       fprintf(out, "{\"e\":\"CompilerDestroy\",\"cid\":%d}\n", c);
     }
     else if (!strcmp(op, "save") || !strcmp(op, "savestream"))
